@@ -59,6 +59,9 @@ CHECKS = {
  "C19": ("metamorphic / differential testing of the implementation against itself under different histories: repeated CLI runs of generated valid and multiply-invalid programs must be byte-identical; proptest-generated interleavings of two instruction streams on two machines sharing one Interpreter object versus each stream alone on fresh objects; fresh versus used parser objects (all four parser types, histories with errors); new-machine state checked before and after; 16 concurrent threads versus sequential",
          "exploration; 4*10^2 (quick) / 5*10^3 (thorough) programs x 5 processes, 5*10^3 / 10^5 interleavings (switch points also inside REP iterations), 2.4*10^3 / 4*10^4 parser histories; registers, whole memory, call stack, per-instruction outcomes, emitted lists and maps compared",
          "trusted: none beyond the harness plumbing (the oracle is equality of two runs of the code under test); schedules of real threads are executed, not enumerated", "3/C19"),
+ "C18": ("model-based testing through the CLI with piped stdin: proptest-generated programs of 1-4 console interrupt calls (INT 21h AH=1/2/0Ah, INT 10h AH=0Ah/13h) with generated register, segment and flag values, buffers and strings placed mid-memory, at segment ends, ending at FFFFFh and wrapping past it, capacities 0..255, input lines empty/shorter/equal/longer than the capacity, stdin complete / without final newline / ending early / closed; after every call registers, flags and the pre-filled buffer region are printed and compared event by event with the reference machine; the stored count of AH=0Ah is read back and checked against the documented bound; exhaustive enumeration of all 256 AH values for both interrupts",
+         "exploration; 10^3 (quick) / 3*10^4 (thorough) programs plus 512 enumerated AH programs per run; characters written, AL results, every other register, all flags and memory (buffer interior, 2 bytes before, 8 after) compared; exit status 0 and no panic for every register and input content generated",
+         "trusted: reference machine and stdout tokenizer; bytes >= 80h are accepted as the UTF-8 of that code point; a line terminator right after the stored characters is accepted; AH=1 on an empty line and offset wrap inside a segment are not generated (unspecified)", "3/C18"),
 }
 
 REASON_WIP = "check not built yet in this revision of /verif (work in progress; see DESIGN.md section 7 for the order of work)"
